@@ -74,6 +74,9 @@ def lockstep(a, b, path, lenient_extra=False, stats=None):
         for base in spec[1:]:
             if base not in mro:
                 return path, f'declared base {base} missing from {mro}'
+        undeclared = [c.__name__ for c in type(b).__mro__ if c.__module__ == 'tatsu.objectmodel.synth' and c.__name__ not in spec and c.__name__ != 'SynthNode']
+        if undeclared:
+            return path, f'undeclared base {undeclared[0]} in {mro} (declared {spec})'
         if isinstance(a.ast, dict):
             attrs = public_attrs(b)
             want = {k: v for k, v in a.ast.items() if k not in ('parseinfo', '__parseinfo__')}
@@ -221,6 +224,12 @@ def check(rules, ruleinfo, text, cache=None):
             model = tatsu.compile(gtext, name=name)
         except Exception as e:
             return dict(bucket=f'compile:{type(e).__name__}', oracle='grammar compiles', observed=str(e)[:300], grammar=gtext), info
+        # the annotation each rule carries in the model is the one written in the grammar (a based rule keeps its own)
+        for r in model.rules:
+            want = tuple((ruleinfo.get(r.name) or {}).get('params') or ())
+            if want and tuple(r.params or ()) != want:
+                return dict(bucket='rule-annotation', oracle='a rule is built with the type annotation written on it', rule=r.name,
+                            expected=list(want), observed=list(r.params or ()), grammar=gtext), info
         gsem = None
         try:
             src = tatsu.to_python_model(gtext, name=name)
@@ -365,6 +374,14 @@ def make_case(rnd, tag):
         if rnd.random() < 0.85:
             spec = f'T{tag}r{i}' + (tail if rnd.random() < 0.6 else '')
             ruleinfo[n] = dict(params=(spec,))
+    # a based rule (name < base) with a type of its own over a typed base rule
+    if len(rules) >= 2 and rnd.random() < 0.2:
+        base = rules[-1][0] if rules[-1][0] != 'num' else rules[-2][0]
+        if base != rules[0][0]:
+            rules.append(('bsub', ('seq', (('tok', 'b'), ('opt', ('tok', ','))))))
+            ruleinfo['bsub'] = dict(params=(f'T{tag}rb' + (tail if rnd.random() < 0.5 else ''),), base=base)
+            n0, x0 = rules[0]
+            rules[0] = (n0, ('seq', (x0, ('opt', ('named', 'w', ('call', 'bsub'))))))
     # element names that collide with dict attributes
     if rnd.random() < 0.3:
         new = rnd.choice(['items', 'keys', 'get', 'values'])
@@ -418,6 +435,25 @@ def run_shard(sh, n):
                         sample=dict(grammar=gtext, input=text, nodes=info.get('nodes')))
                 if d is not None:
                     sh.fail(d['bucket'], dict(rules=rules, ruleinfo=ruleinfo, input=text), d)
+            # the same type names declared by another grammar without (or with) the base chain, later in this process: each grammar's
+            # nodes have the bases that grammar declares
+            chained = [nm for nm, v in ruleinfo.items() if isinstance((v.get('params') or ('',))[0], str) and '::' in (v.get('params') or ('',))[0]]
+            if chained and rnd.random() < 0.5:
+                ruleinfo2 = {nm: (dict(v, params=(v['params'][0].split('::')[0],)) if nm in chained else v) for nm, v in ruleinfo.items()}
+                cache2 = {}
+                try:
+                    for _ in range(2):
+                        text = gen.layout(rnd, gen.derive(rnd, rmap, rmap[start]), 'base')
+                        d, info = check(rules, ruleinfo2, text, cache2)
+                        sh.case((gtext.replace(f'{sh.index}x{_tag[0]}', ''), text, 'second-grammar'), info.get('nodes', 0) >= 1, ['second grammar reusing the type names without the chain'],
+                                sample=dict(grammar=gtext, input=text, note='then the same grammar with the base chains removed'))
+                        if d is not None:
+                            sh.fail('second-grammar:' + d['bucket'], dict(rules=rules, ruleinfo=ruleinfo2, input=text), d)
+                            break
+                finally:
+                    for k in ('mod', 'pmod'):
+                        if cache2.get(k) is not None:
+                            tu.unload(cache2[k])
         finally:
             if cache.get('mod') is not None:
                 tu.unload(cache['mod'])
